@@ -411,6 +411,15 @@ def check_volume(run, tier, rng):
             # below the clip (|d2-d| <= 1e6 always here): cv = 0.5*sqrt(sum)
             if abs(4 * v * v - float(ex)) > 1e-6 * max(float(ex), 1e-12):
                 run.fail("vv-wrong-value", f"volume_variation={v}, exact 0.5*sqrt(sum w^2 (d2-d)^2)={0.5 * math.sqrt(float(ex))}", **what)
+        if t % 4 == 1:
+            # the same sample values stored as integers: the metric is a function of the values, not of the dtype
+            xi = np.round(x * 64).astype(np.int64)
+            try:
+                vi, vf = float(volume_variation(xi, w)), float(volume_variation(xi.astype(float), w))
+                if not (abs(vi - vf) <= 1e-9 * max(vf, 1e-12)):
+                    run.fail("vv-depends-on-dtype", f"volume_variation on integer-typed samples = {vi}, on the same values as floats = {vf}", **what)
+            except Exception as e:
+                run.fail("vv-raises", f"volume_variation on integer-typed samples raised {type(e).__name__}: {e}", **what)
         c = rng.choice([3.0, 1e-6, 1e5])
         v2 = float(volume_variation(x, w * c))
         if abs(v2 - v) > 1e-8 * max(v, 1e-12):
